@@ -424,6 +424,168 @@ minsd %xmm1,%xmm0
 maxsd %xmm1,%xmm0
 sqrtsd %xmm1,%xmm0
 mulss (%rsi),%xmm0
+addb %cl,%al
+addw %cx,%ax
+addb $0x7f,(%rsi)
+addw $0x7fff,(%rsi)
+adcb %cl,%al
+adcw $0x1,%ax
+sbbb %cl,%al
+sbbw %cx,(%rsi)
+subb %cl,%al
+subw $0x8000,%ax
+andb $0xf,%al
+andw %cx,%ax
+orb %cl,(%rsi)
+orw $0xff,%ax
+xorb %ch,%al
+xorw %cx,%ax
+testw %cx,%ax
+testw $0x8000,(%rsi)
+incb %al
+incw %ax
+decb (%rsi)
+decw %ax
+negb %al
+negw %ax
+negl (%rsi)
+negq (%rsi)
+notb %al
+notw %ax
+notl (%rsi)
+notq (%rsi)
+shlb $3,%al
+shlb %cl,%al
+shlw $5,%ax
+shlw %cl,%ax
+shrb $3,%al
+shrb %cl,%al
+shrw $5,%ax
+shrw %cl,%ax
+sarb $3,%al
+sarb %cl,%al
+sarw $5,%ax
+sarw %cl,%ax
+sarq $3,(%rsi)
+shlq $3,(%rsi)
+shrq %cl,(%rsi)
+rolb $3,%al
+rolw $3,%ax
+roll $3,(%rsi)
+rolq $3,(%rsi)
+rorb $3,%al
+rorw $3,%ax
+rorl $3,(%rsi)
+rorq $35,(%rsi)
+imul %cx,%ax
+imul $0x12,%cx,%ax
+imulw (%rsi)
+mul %cx
+mull (%rsi)
+mulq (%rsi)
+movsbw %cl,%ax
+movzbw %cl,%ax
+movswq %cx,%rax
+movzwq (%rsi),%rax
+movsb
+movsw
+movsl
+movntdqa (%rsi),%xmm0
+vmovntdqa (%rsi),%ymm0
+movntps %xmm0,(%rsi)
+movntpd %xmm0,(%rsi)
+vmovntps %ymm0,(%rsi)
+vmovntpd %ymm0,(%rsi)
+vmovapd %ymm1,%ymm0
+vmovhpd (%rsi),%xmm1,%xmm0
+vmovlpd (%rsi),%xmm1,%xmm0
+vandpd %ymm2,%ymm1,%ymm0
+vandnpd %ymm2,%ymm1,%ymm0
+vorpd %ymm2,%ymm1,%ymm0
+vunpckhps %ymm2,%ymm1,%ymm0
+vunpcklpd %ymm2,%ymm1,%ymm0
+vpmovsxbq %xmm1,%ymm0
+vpmovzxwq %xmm1,%ymm0
+vaddss %xmm2,%xmm1,%xmm0
+vsubss %xmm2,%xmm1,%xmm0
+vmulss %xmm2,%xmm1,%xmm0
+vdivss %xmm2,%xmm1,%xmm0
+vminss %xmm2,%xmm1,%xmm0
+vmaxss %xmm2,%xmm1,%xmm0
+vsqrtss %xmm2,%xmm1,%xmm0
+vaddsd %xmm2,%xmm1,%xmm0
+vsubsd %xmm2,%xmm1,%xmm0
+vmulsd %xmm2,%xmm1,%xmm0
+vdivsd %xmm2,%xmm1,%xmm0
+vminsd %xmm2,%xmm1,%xmm0
+vmaxsd %xmm2,%xmm1,%xmm0
+vsqrtsd %xmm2,%xmm1,%xmm0
+cmpps $0x3,%xmm1,%xmm0
+cmppd $0x6,%xmm1,%xmm0
+vcmpeqps %ymm2,%ymm1,%ymm0
+vcmpeqpd %xmm2,%xmm1,%xmm0
+vcmpltps %ymm2,%ymm1,%ymm0
+vcmpltpd %xmm2,%xmm1,%xmm0
+vcmpleps %ymm2,%ymm1,%ymm0
+vcmplepd %xmm2,%xmm1,%xmm0
+vcmpunordps %ymm2,%ymm1,%ymm0
+vcmpunordpd %xmm2,%xmm1,%xmm0
+vcmpneqps %ymm2,%ymm1,%ymm0
+vcmpneqpd %xmm2,%xmm1,%xmm0
+vcmpnltps %ymm2,%ymm1,%ymm0
+vcmpnltpd %xmm2,%xmm1,%xmm0
+vcmpnleps %ymm2,%ymm1,%ymm0
+vcmpnlepd %xmm2,%xmm1,%xmm0
+vcmpordps %ymm2,%ymm1,%ymm0
+vcmpordpd %xmm2,%xmm1,%xmm0
+vcmpeq_uqps %ymm2,%ymm1,%ymm0
+vcmpeq_uqpd %xmm2,%xmm1,%xmm0
+vcmpngeps %ymm2,%ymm1,%ymm0
+vcmpngepd %xmm2,%xmm1,%xmm0
+vcmpngtps %ymm2,%ymm1,%ymm0
+vcmpngtpd %xmm2,%xmm1,%xmm0
+vcmpfalseps %ymm2,%ymm1,%ymm0
+vcmpfalsepd %xmm2,%xmm1,%xmm0
+vcmpneq_oqps %ymm2,%ymm1,%ymm0
+vcmpneq_oqpd %xmm2,%xmm1,%xmm0
+vcmpgeps %ymm2,%ymm1,%ymm0
+vcmpgepd %xmm2,%xmm1,%xmm0
+vcmpgtps %ymm2,%ymm1,%ymm0
+vcmpgtpd %xmm2,%xmm1,%xmm0
+vcmptrueps %ymm2,%ymm1,%ymm0
+vcmptruepd %xmm2,%xmm1,%xmm0
+vcmpeq_osps %ymm2,%ymm1,%ymm0
+vcmpeq_ospd %xmm2,%xmm1,%xmm0
+vcmplt_oqps %ymm2,%ymm1,%ymm0
+vcmplt_oqpd %xmm2,%xmm1,%xmm0
+vcmple_oqps %ymm2,%ymm1,%ymm0
+vcmple_oqpd %xmm2,%xmm1,%xmm0
+vcmpunord_sps %ymm2,%ymm1,%ymm0
+vcmpunord_spd %xmm2,%xmm1,%xmm0
+vcmpneq_usps %ymm2,%ymm1,%ymm0
+vcmpneq_uspd %xmm2,%xmm1,%xmm0
+vcmpnlt_uqps %ymm2,%ymm1,%ymm0
+vcmpnlt_uqpd %xmm2,%xmm1,%xmm0
+vcmpnle_uqps %ymm2,%ymm1,%ymm0
+vcmpnle_uqpd %xmm2,%xmm1,%xmm0
+vcmpord_sps %ymm2,%ymm1,%ymm0
+vcmpord_spd %xmm2,%xmm1,%xmm0
+vcmpeq_usps %ymm2,%ymm1,%ymm0
+vcmpeq_uspd %xmm2,%xmm1,%xmm0
+vcmpnge_uqps %ymm2,%ymm1,%ymm0
+vcmpnge_uqpd %xmm2,%xmm1,%xmm0
+vcmpngt_uqps %ymm2,%ymm1,%ymm0
+vcmpngt_uqpd %xmm2,%xmm1,%xmm0
+vcmpfalse_osps %ymm2,%ymm1,%ymm0
+vcmpfalse_ospd %xmm2,%xmm1,%xmm0
+vcmpneq_osps %ymm2,%ymm1,%ymm0
+vcmpneq_ospd %xmm2,%xmm1,%xmm0
+vcmpge_oqps %ymm2,%ymm1,%ymm0
+vcmpge_oqpd %xmm2,%xmm1,%xmm0
+vcmpgt_oqps %ymm2,%ymm1,%ymm0
+vcmpgt_oqpd %xmm2,%xmm1,%xmm0
+vcmptrue_usps %ymm2,%ymm1,%ymm0
+vcmptrue_uspd %xmm2,%xmm1,%xmm0
 '''
 
 
